@@ -262,6 +262,11 @@ def run_optimization(case, R):
                 ]
                 d_abs = max(1e-6, 1e-3 * abs(v))
                 probes += [
+                    ("Weighted[0]", lambda: OP.Measurable(probe_name, tt_, weight=0.0, pop_names=psel), 0.0),
+                    ("Weighted[2.5]", lambda: OP.Measurable(probe_name, tt_, weight=2.5, pop_names=psel), 2.5 * v),
+                    ("Weighted[-1]", lambda: OP.Measurable(probe_name, tt_, weight=-1, pop_names=psel), -v),
+                ]
+                probes += [
                     ("IncreaseBy-abs[met]", lambda: OP.IncreaseByMeasurable(probe_name, tt_, 0.0, pop_names=psel, target_type="abs"), 0.0),
                     ("IncreaseBy-abs[violated]", lambda: OP.IncreaseByMeasurable(probe_name, tt_, d_abs, pop_names=psel, target_type="abs"), np.inf),
                     ("DecreaseBy-abs[met]", lambda: OP.DecreaseByMeasurable(probe_name, tt_, 0.0, pop_names=psel, target_type="abs"), 0.0),
